@@ -114,6 +114,67 @@ def replay(tapes, prop, tier, wd, tag, extra_props=()):
     return stats, findings, obs
 
 
+RAW_PROPS = {"C01", "C04", "C05", "C06", "C17", "C19"}
+DIR_OF_START = {"E12": "expr", "Type": "type", "DDL": "ddl", "DML": "dml", "QueryStatement": "query", "Statement": "statement"}
+
+
+def mutants(chk, prop, tier, wd, tape_files):
+    """inputs outside G: structural mutants of G's derivations (TreeFaults.tla) and token-level mutants of the test
+    inputs (Faults.tla).  Whatever the real parser accepts must satisfy the real-vs-real clauses."""
+    import random
+    import fam_parser
+    rng = random.Random(common.seed())
+    outs = []
+    per_start = 250 if tier == "quick" else 1500
+    for (tapes, n) in tape_files:
+        tag = os.path.basename(tapes)[6:-7]
+        if tag not in ("DDL", "QueryStatement", "QS_From", "DML", "E12") or n == 0:
+            continue
+        seeds = os.path.join(wd, "struct-%s.ndjson" % tag)
+        ns = harness_json(["gram", "-in", tapes, "-out", os.path.join(wd, "struct.findings"), "-dump", seeds, "-struct"])["sentences"]
+        if ns == 0:
+            continue
+        sel = "{" + ", ".join(str(i) for i in sorted(rng.sample(range(1, ns + 1), min(per_start, ns)))) + "}"
+        out = os.path.join(wd, "treefaults-%s.ndjson" % tag)
+        if os.path.exists(out):
+            os.remove(out)
+        text = "CONSTANTS\n  SeedFile = %s\n  OutFile = %s\n  Sel = %s\nSPECIFICATION Spec\nINVARIANT Emit\nCHECK_DEADLOCK FALSE\n" % (tla_string(seeds), tla_string(out), sel)
+        r = tlc_must_pass("TreeFaults", text, os.path.join(wd, "tf-" + tag), workers=WORKERS, heap="6g", timeout=3000, name="TreeFaults_" + tag)
+        chk.add_states(r)
+        chk.notes.setdefault("tree_fault_mutants", {})[tag] = r.distinct
+        outs.append(out)
+    # token-level mutants of the upstream test inputs
+    pwd = os.path.join(wd, "tokfaults")
+    os.makedirs(pwd, exist_ok=True)
+    seeds, nseeds = fam_parser.make_seeds(pwd)
+    outs.append(fam_parser.gen_faults(chk, tier, pwd, seeds, nseeds))
+    return outs
+
+
+def replay_raw(rawfile, prop, tier, wd, tag):
+    out = os.path.join(wd, "findings-%s.ndjson" % tag)
+    args = ["gram", "-raw", rawfile, "-out", out, "-props", prop, "-profiles", 1]
+    obs = None
+    if prop == "C05":
+        obs = os.path.join(wd, "obs-%s.0.ndjson" % tag)
+        args += ["-obs", obs]
+    if prop == "C17":
+        obs = os.path.join(wd, "walk-%s.0.ndjson" % tag)
+        args += ["-walk", obs, "-seed", common.seed()]
+    obs2 = None
+    if prop == "C19":
+        obs = os.path.join(wd, "posl-%s.0.ndjson" % tag)
+        obs2 = os.path.join(wd, "walkb-%s.0.ndjson" % tag)
+        args += ["-posl", obs, "-astfile", os.path.join(common.REPO, "ast", "ast.go"), "-walk", obs2]
+    stats = harness_json(args, timeout=7200)
+    findings = [json.loads(l) for l in open(out)] if os.path.exists(out) else []
+    for f in findings:
+        f["raw"] = True
+    if obs2:
+        return stats, findings, (obs, obs2)
+    return stats, findings, obs
+
+
 def tape_lines(tapes, lines):
     want = set(lines)
     got = {}
@@ -137,7 +198,8 @@ def run_into(chk, prop, tier, wd):
     all_findings = []     # (tapes file, finding)
     model_dev = 0
     kinds = {}
-    for (tapes, n) in corpora(chk, prop, tier, wd):
+    tape_files = corpora(chk, prop, tier, wd)
+    for (tapes, n) in tape_files:
         if n == 0:
             continue
         tag = os.path.basename(tapes)[6:-7]
@@ -187,6 +249,33 @@ def run_into(chk, prop, tier, wd):
         for target in generated_sources(chk, wd):
             chk.violation({"input": "ast/" + target, "kind": "C19-generated-stale", "detail": "ast/%s differs from the output of the repository's generator" % target,
                            "replay": {"family": "grammar", "property": "C19", "generated": target}})
+    if prop in RAW_PROPS:
+        for rawfile in mutants(chk, prop, tier, wd, tape_files):
+            tag = "raw-" + os.path.basename(rawfile).split(".")[0]
+            stats, findings, obs = replay_raw(rawfile, prop, tier, wd, tag)
+            acc = stats["starts"].get("raw-accepted", 0)
+            log("mutants %s: %d inputs, %d accepted, findings %s" % (tag, stats["sentences"], acc, stats["findings"]))
+            chk.notes.setdefault("mutants_accepted", {})[tag] = [stats["sentences"], acc]
+            chk.cov["evaluations"] += stats["evals"].get(prop, 0)
+            total += acc
+            for f in findings:
+                if f["prop"] == prop:
+                    all_findings.append((rawfile, f))
+            obs_list = [(obs, OBS_MODULE.get(prop), prop)] if isinstance(obs, str) else ([(obs[0], "PosLangTrace", "C19"), (obs[1], "WalkTrace", "C17")] if obs else [])
+            for (ofile, module, as_prop) in obs_list:
+                if not ofile or not os.path.exists(ofile) or os.path.getsize(ofile) == 0:
+                    continue
+                pre = ofile[:-len(".0.ndjson")]
+                cnt, rejects, states, trans = split_and_validate(module, pre, wd, tag)
+                chk.cov["states"] += states
+                chk.cov["transitions"] += trans
+                chk.cov["traces_validated_against_impl"] += cnt
+                for (k, line, tagp) in rejects:
+                    rec = common.read_record(pre + ".part", k, line)
+                    f = obs_finding(as_prop, tagp, rec)
+                    f["prop"] = prop
+                    f["module"] = module
+                    all_findings.append((None, f))
     if prop not in OBS_MODULE:
         chk.cov["traces_validated_against_impl"] += total
     chk.cov["distinct_nontrivial"] = max(2, chk.cov["distinct_nontrivial"], total)
@@ -207,7 +296,7 @@ def run_into(chk, prop, tier, wd):
     confirmed = confirm(prop, tier, all_findings, wd)
     for f in confirmed:
         chk.violation({"input": f["text"], "entry": f.get("start", ""), "kind": "%s-%s" % (prop, f["kind"]), "detail": "[%s/%s] %s" % (f.get("start"), f.get("profile"), f["detail"]),
-                       "replay": {"family": "grammar", "property": prop, "tape": f.get("tape"), "obs": f.get("obs"), "tier": tier}})
+                       "replay": {"family": "grammar", "property": prop, "tape": f.get("tape"), "obs": f.get("obs"), "rawline": f.get("rawline"), "tier": tier}})
     if prop == "C05":
         # error clause of C05: trees returned WITH errors (fault corpus, hook traces validated by ParserTrace.tla)
         import fam_parser
@@ -273,7 +362,24 @@ def confirm(prop, tier, all_findings, wd):
         else:
             by_file.setdefault(tapes, []).append(f)
     out = []
-    for tapes, fs in by_file.items():
+    for tapes, fs in list(by_file.items()):
+        if fs and fs[0].get("raw"):
+            # inputs without tapes: re-run exactly these inputs
+            want = sorted(set(f["line"] for f in fs))[:300]
+            sub = os.path.join(wd, "confirm-raw.ndjson")
+            with open(tapes) as fh, open(sub, "w") as oh:
+                keep = set(want)
+                texts = {}
+                for i, l in enumerate(fh, 1):
+                    if i in keep:
+                        oh.write(l)
+                        texts[len(texts) + 1] = l
+            stats, findings, obs = replay_raw(sub, prop, tier, wd, "confirm-raw")
+            for f in findings:
+                if f["prop"] == prop:
+                    f["rawline"] = texts.get(f["line"], "").strip()
+                    out.append(f)
+            continue
         lines = sorted(set(f["line"] for f in fs))[:300]
         got = tape_lines(tapes, lines)
         sub = os.path.join(wd, "confirm-tapes.ndjson")
@@ -311,6 +417,13 @@ def replay_case(case):
         with open(sub, "w") as fh:
             fh.write(rp["tape"] + "\n")
         stats, findings, obs = replay(sub, prop, rp.get("tier", "quick"), wd, "replay")
+        bad = [f for f in findings if f["prop"] == prop]
+        return ("reproduced: %s %s" % (bad[0]["kind"], bad[0]["detail"][:200])) if bad else None
+    if rp.get("rawline"):
+        sub = os.path.join(wd, "raw.ndjson")
+        with open(sub, "w") as fh:
+            fh.write(rp["rawline"] + "\n")
+        stats, findings, obs = replay_raw(sub, prop, rp.get("tier", "quick"), wd, "replay-raw")
         bad = [f for f in findings if f["prop"] == prop]
         return ("reproduced: %s %s" % (bad[0]["kind"], bad[0]["detail"][:200])) if bad else None
     if rp.get("generated"):
